@@ -313,6 +313,28 @@ def m_minmax(kind):
     return h
 
 
+def m_builtin_minmax(kind):
+    """Python's min / max: one iterable, or two and more values"""
+
+    def h(*args, **k):
+        if k:
+            raise Unsupported("builtin %s with %s" % (kind, sorted(k)))
+        if len(args) == 1:
+            x = args[0]
+            if isinstance(x, (list, tuple)):
+                args = tuple(x)
+            elif isinstance(x, S):
+                raise Unsupported("builtin %s of one symbolic scalar (not iterable)" % kind)
+            else:
+                raise Unsupported("builtin %s over a symbolic array (cross-event operator)" % kind)
+        if any(isinstance(v, (A,)) for v in args):
+            raise Unsupported("builtin %s of arrays" % kind)
+        # (for real numbers; a NaN operand is outside the real-arithmetic reading of every model here)
+        return S((sp.Min if kind == "min" else sp.Max)(*[lift(v) for v in args]))
+
+    return h
+
+
 def m_asarray(x, *a, **k):
     if isinstance(x, (A, S)):
         return x  # alias, like np.asarray on an ndarray
@@ -602,8 +624,8 @@ def build_models(interp):
     reg(np.asarray, m_asarray)
     reg(np.array, m_array)
     reg(np.copy, m_array)
-    reg(min, m_minmax("min"))
-    reg(max, m_minmax("max"))
+    reg(min, m_builtin_minmax("min"))
+    reg(max, m_builtin_minmax("max"))
     reg(abs, lambda x: abs(x))
     reg(len, length_of, always=True)
     reg(print, lambda *a, **k: None, always=True)
